@@ -97,6 +97,10 @@ func runC14(c *Ctx) {
 	p := c.P
 	checkWrapperNotTakenForPacket(c, "R8")
 	checkHandleValidityFromTable(c, "R7")
+	// R9 (shared with C01.R6 / C18.R1): with the allocator the page that holds a pipelined WRITE's data is filed under
+	// that request's order id — filed under its predecessor's, it is recycled when the predecessor is answered and a
+	// later packet overwrites the bytes the slower WRITE is still to store
+	checkPageTagging(c, "R9")
 	d := getDispatcher(c, "R1")
 	if d == nil {
 		return
